@@ -225,7 +225,11 @@ def playback(scratch, obl, tests, timeout=300):
             rc, out, wall, timed_out = run(cmd, cwd=repo, env=env, timeout=timeout)
             ran = re.search(r"running (\d+) test", out)
             panicked = re.search(r"panicked at ([^\n]*):\n([^\n]*)", out)
-            if timed_out:
+            if "there were still these concrete values left over" in out or "ran out of concrete values" in out.lower():
+                # the native run consumed a different number of kani::any() values than the verifier's run (the
+                # harness depends on a verification stub): this is not a reproduction
+                outcome = "playback-mismatch"
+            elif timed_out:
                 outcome = "hang"     # native execution did not finish within the watchdog
             elif ran and ran.group(1) != "0" and re.search(r"test result: FAILED", out):
                 outcome = "panicked"
